@@ -33,7 +33,7 @@ ASSUMPTIONS = [
     "the exception type of a refused command is not constrained beyond 'not a TimeoutError'",
     "command payload schemas inside the NCP model are bellows' own tables",
 ]
-PROBES = ["two_connections", "op.form", "op.leave", "op.ensure", "op.scan", "event_before_response", "event_after_timeout", "event_at_deadline", "nonmatching_event",
+PROBES = ["two_connections", "scan_requested_during_scan", "op.form", "op.leave", "op.ensure", "op.scan", "event_before_response", "event_after_timeout", "event_at_deadline", "nonmatching_event",
           "duplicate_event", "refused", "no_response", "timeout_raised", "cancelled", "already_joined", "not_joined", "scan_result_before_issue",
           "scan_result_before_response", "scan_result_after_completion", "scan_failed_completion", "repeated_operations", "ensure_from_state_1", "ensure_from_state_3", "ensure_from_state_4", "op.overlap", "overlap.refuse", "overlap.cancel", "overlap.timeout"]
 
@@ -59,6 +59,7 @@ def plan(tier):
         sweeps.append(("ensure_state", {"V": V, "sched": False}))
         sweeps.append(("overlap", {"V": V, "sched": False}))
         sweeps.append(("twin", {"V": V, "sched": False}))
+        sweeps.append(("scan_overlap", {"V": V, "sched": False}))
         for part in range(4):
             sweeps.append(("scan", {"V": V, "part": part, "sched": False}))
     return {
@@ -143,9 +144,74 @@ def run_twin(params, tape, detail=False):
             "sample": {"scenario": "twin", "V": V, "outcomes": {k: str(v) for k, v in out.items()}}}
 
 
+def run_scan_overlap(params, tape, detail=False):
+    """A second scan is requested while one is in progress; the NCP refuses it. The first scan returns its own results, in order, and when
+    both calls have ended nothing registered for either of them remains."""
+    V = params["V"]
+    rig = e3.StackRig(tape, version=V, sched=params.get("sched", True), fast_line=True, chunking=False, max_iters=2_000_000, max_vt=1e8)
+    loop, ncp = rig.loop, rig.ncp
+    viol, probes, out = [], {"scan_requested_during_scan": 1}, {}
+
+    def scan(ez, chans):
+        return ez.startScan(scanType=t.EzspNetworkScanType.ENERGY_SCAN, channelMask=t.Channels.from_channel_list(chans), duration=1)
+
+    async def op(label, coro):
+        try:
+            out[label] = ("ok", await coro)
+        except asyncio.CancelledError:
+            out[label] = ("cancelled",)
+            raise
+        except BaseException as e:  # noqa: BLE001
+            out[label] = ("raised", repr(e))
+
+    async def main():
+        ez = await rig.bringup()
+        ncp.scan_step, ncp.scan_exclusive = 0.3, True
+        base = len(ez._callbacks)
+        ta = loop.create_task(op("A", scan(ez, [11, 15, 20])))
+        await asyncio.sleep(0.45)
+        await op("B", scan(ez, [12, 13]))  # refused at once
+        out["after_B"] = len(ez._callbacks) - base
+        await asyncio.sleep(3.0)
+        if not ta.done():
+            ta.cancel()
+        out["after_A"] = len(ez._callbacks) - base
+        # a later scan works and collects only its own results
+        ncp._scan_busy_until = -1.0
+        await op("C", scan(ez, [25, 26]))
+        out["after_C"] = len(ez._callbacks) - base
+        out["loop_exceptions"] = len(loop.exceptions)
+
+    outcome, val = rig.run(main())
+    tag = f"v{V} scan requested while a scan is in progress"
+    if outcome != "done":
+        viol.append(("C17.scan", "sim-" + outcome, f"{tag}: simulation ended with {outcome}: {val!r}"))
+    else:
+        def chans_of(o):
+            return [int(r[0]) for r in o[1]] if o and o[0] == "ok" else None
+
+        if chans_of(out.get("A")) != [11, 15, 20]:
+            viol.append(("C17.scan", "overlap-first-scan", f"{tag}: the scan in progress returned {out.get('A')} (expected results for channels 11, 15, 20 in order)"))
+        if out.get("B", ("",))[0] != "raised":
+            viol.append(("C17.raise", "overlap-refused-scan", f"{tag}: the refused second scan ended {out.get('B')}"))
+        if chans_of(out.get("C")) != [25, 26]:
+            viol.append(("C17.scan", "overlap-later-scan", f"{tag}: a later scan returned {out.get('C')} (expected results for channels 25, 26)"))
+        for k in ("after_B", "after_A", "after_C"):
+            want = 1 if k == "after_B" else 0
+            if out.get(k) != want:
+                viol.append(("C17.clean", "leak", f"{tag}: {out.get(k)} callback(s) registered beyond the baseline {k.replace('_', ' ')} ended (expected {want})"))
+                break
+    sig = hashlib.blake2b(repr(("scan_overlap", V, out.get("A", ("",))[0], out.get("B", ("",))[0])).encode(), digest_size=8).digest()
+    return {"viol": viol, "faults": {}, "probes": probes, "vt": loop.time(), "iters": loop.iters, "sig": sig, "nontrivial": True,
+            "digest": hashlib.sha256(repr((rig.log[-200:], sorted((k, repr(v)) for k, v in out.items()))).encode()).hexdigest()[:16],
+            "sample": {"scenario": "scan_overlap", "V": V, "outcomes": {k: str(v)[:80] for k, v in out.items()}}}
+
+
 def run(scenario, params, tape, detail=False):
     if scenario == "twin":
         return run_twin(params, tape, detail)
+    if scenario == "scan_overlap":
+        return run_scan_overlap(params, tape, detail)
     V = params["V"] if "V" in params else (4, 6, 8, 13, 14)[tape.draw(5, "V")]
     rig = e3.StackRig(tape, version=V, sched=params.get("sched", True), fast_line=True, chunking=False, max_iters=3_000_000, max_vt=1e8)
     loop, ncp = rig.loop, rig.ncp
